@@ -9,6 +9,7 @@
 import AferoVerif.Model.MemMapFs
 import AferoVerif.Proofs.Path
 import AferoVerif.Proofs.Reach
+import AferoVerif.Proofs.MemFsInv2
 import AferoVerif.Generated.Facts
 namespace AferoVerif.C01
 open AferoVerif AferoVerif.Path
@@ -107,6 +108,29 @@ theorem every_name_allocated (ops : List Op) (k : Key) (f : Nat)
 
 example : (MemFs.run MemFs.init [.mkdir "/a".toList 0o755, .create "/a/f".toList, .create "/g".toList, .remove "/g".toList]).lookup
     (keyOfStr "/a/f".toList) = some 2 := by decide
+
+/-! ### the index invariant after every well-formed program of the fragment -/
+
+/-- **the tree stays self-consistent** (every existing path is listed by its parent directory, every
+    listed entry exists and is listed under its own name, every existing path has an existing parent
+    directory, every name leads to an allocated object that carries that name): after any program
+    whose operations meet, in the state they run in, the ordinary preconditions `WFop` — Create,
+    Mkdir, MkdirAll, creating OpenFile below an existing directory; Remove of a file or an empty
+    directory; every metadata call, every open, every method of every handle, in any number and any
+    order. PARTIAL: Rename, RemoveAll and MkdirAll over several missing levels are outside this
+    fragment (for them the invariant is checked on the implementation, by reflection, after every
+    generated program). -/
+theorem tree_consistent_fragment (ops : List Op) (hw : MemFs.WFrun MemFs.init ops) :
+    MemFs.Consistent (MemFs.run MemFs.init ops) :=
+  MemFs.consistent_run_wf ops MemFs.init MemFs.consistent_init hw
+
+/-- non-vacuity: a program of the fragment -/
+example : MemFs.WFrun MemFs.init [.mkdir "/a".toList 0o755, .create "/a/f".toList, .hWrite 0 [1, 2], .chmod "/a/f".toList 0o600, .remove "/a/f".toList, .remove "/a".toList] := by
+  refine ⟨Or.inr ⟨by decide, by decide, 0, [], by decide, by decide⟩, ?_⟩
+  refine ⟨Or.inr ⟨by decide, by decide, by decide, 1, [], by decide, by decide⟩, ?_⟩
+  refine ⟨trivial, trivial, ?_⟩
+  refine ⟨Or.inr ⟨by decide, 2, by decide, Or.inl (by decide)⟩, ?_⟩
+  exact ⟨Or.inr ⟨by decide, 1, by decide, Or.inr (by decide)⟩, trivial⟩
 
 /-! ### tie to the source: constants regenerated from the Go code on every run -/
 
